@@ -730,6 +730,11 @@ func (r *ndRun) lpInS(id int) bool { return r.lp != nil && r.lp.S[id] }
 
 // lpWithheldLocked: is this pending message currently held back by the late-payload adversary?
 func (r *ndRun) lpWithheldLocked(m *ndMsg) bool {
+	if sw := r.sw; sw != nil && sw.phase < 2 && m.dst == sw.victim && r.cfg.honest[m.src] {
+		if in := r.info(m); in.round == sw.round && in.period == 0 && (in.kind == 'P' || (in.kind == 'V' && in.step == propose)) {
+			return true // the victim learns the leading value only through the re-proposal vote and the bare payload
+		}
+	}
 	lp := r.lp
 	if lp == nil || lp.phase >= 3 {
 		return false
@@ -760,6 +765,96 @@ func (r *ndRun) lpWithheldLocked(m *ndMsg) bool {
 	return false
 }
 
+// ndPropSwap ("trim drops the staged payload" family, needs two Byzantine senders): a victim gets no period-0 proposal
+// of the round from honest nodes; Byzantine Z1 sends it a period-1 re-proposal vote for the leading value v and v's
+// payload without prior vote, both Byzantine nodes soft-vote v; once the victim has cert-voted v, Z2 (better period-1
+// credential than Z1) sends its own period-1 proposal, which replaces Z1's re-proposal in the victim's proposal tracker.
+type ndPropSwap struct {
+	round  basics.Round
+	victim int
+	z1, z2 int
+	val    string
+	phase  int // 0 wait for v's payload on the wire, 1 wait for the victim's cert vote, 2 done
+}
+
+func (r *ndRun) swStep(minRound basics.Round) string {
+	byz := r.byzIDs()
+	if len(byz) < 2 {
+		return ""
+	}
+	sw := r.sw
+	if sw == nil || sw.round < minRound {
+		hon := r.honestIDs()
+		sw = &ndPropSwap{round: minRound, victim: hon[r.rng.Intn(len(hon))], z1: byz[0], z2: byz[1]}
+		if r.rng.Intn(2) == 0 {
+			sw.phase = 2 // not in this round
+		}
+		// Z2 must beat Z1 in period 1
+		scratch, ref := ndGetWorld(), r.refLedger()
+		var c [2]vote
+		for i, z := range []int{sw.z1, sw.z2} {
+			pv := proposalValue{OriginalPeriod: 1, OriginalProposer: scratch.parts[z].Parent}
+			pv.BlockDigest[0] = 1
+			if uv, err := ndSignWith(scratch, z, minRound, 1, propose, pv, ref); err == nil {
+				c[i], _ = uv.verify(ref)
+			}
+		}
+		if c[0].Cred.Less(c[1].Cred) {
+			sw.z1, sw.z2 = sw.z2, sw.z1
+		}
+		r.sw = sw
+		if sw.phase == 0 {
+			r.logLocked("PROPSWAP round=%d victim=%d z1=%d z2=%d", sw.round, sw.victim, sw.z1, sw.z2)
+		}
+	}
+	mask := make([]byte, r.cfg.n)
+	all := make([]byte, r.cfg.n)
+	for i := range mask {
+		mask[i], all[i] = '0', '0'
+		if r.cfg.honest[i] {
+			all[i] = '1'
+		}
+	}
+	mask[sw.victim] = '1'
+	switch sw.phase {
+	case 0:
+		// the leading honest period-0 value whose payload has been seen: take the one most soft votes are for, else any
+		key := fmt.Sprintf("%d/%d/%d", sw.round, 0, soft)
+		best, bestN := "", 0
+		cnt := map[string]int{}
+		for _, vs := range r.wireVotes[key] {
+			for _, uv := range vs {
+				cnt[ndTok(uv.R.Proposal)]++
+			}
+		}
+		for tok, k := range cnt {
+			if _, have := r.payloads[tok]; have && (k > bestN || (k == bestN && tok < best)) {
+				best, bestN = tok, k
+			}
+		}
+		if best == "" {
+			return ""
+		}
+		sw.val, sw.phase = best, 1
+		r.genQueue = append(r.genQueue,
+			fmt.Sprintf("bpl %d %d 0 %s %s", sw.z1, sw.round, best, string(mask)),
+			fmt.Sprintf("bv %d %d 0 %d %s %s", sw.z1, sw.round, soft, best, string(all)),
+			fmt.Sprintf("bv %d %d 0 %d %s %s", sw.z2, sw.round, soft, best, string(all)))
+		return fmt.Sprintf("bpv %d %d 1 %s %s", sw.z1, sw.round, best, string(mask))
+	case 1:
+		for _, ev := range r.trace {
+			if ev.kind == 'v' && ev.node == sw.victim && ev.round == sw.round && ev.p == 0 && ev.step == cert && !ev.dropped {
+				sw.phase = 2
+				return fmt.Sprintf("bp %d %d 1 %d %s", sw.z2, sw.round, 1+r.rng.Intn(3), string(mask))
+			}
+		}
+		if n := r.nodes[sw.victim]; n.round != sw.round || n.period != 0 || n.step > cert {
+			sw.phase = 2
+		}
+	}
+	return ""
+}
+
 // lpStep drives the phases; "" = let the ordinary generator decide.
 func (r *ndRun) lpStep() string {
 	hon := r.honestIDs()
@@ -769,6 +864,10 @@ func (r *ndRun) lpStep() string {
 		if n := r.nodes[id]; i == 0 || n.round < minRound {
 			minRound = n.round
 		}
+	}
+	if l := r.swStep(minRound); l != "" {
+		r.mu.Unlock()
+		return l
 	}
 	lp := r.lp
 	if lp == nil || (lp.round < minRound && lp.phase > 0) || lp.round+1 < minRound {
